@@ -19,6 +19,7 @@ import sys
 import time
 
 from mc.core.runner import REPO, VERIF
+from mc.core.util import exc_name
 from mc.models import regex_nfa as R
 
 ID = "C19"
@@ -692,7 +693,7 @@ def eval_http(name, mode):
             got.load(http_response(text, mode))
             out["load"] = "ok"
         except Exception as exc:                                             # noqa
-            out["load"] = type(exc).__name__
+            out["load"] = exc_name(exc)
     c = count_calls(go, hard_cap=STEP_CAP)
     if c > STEP_CAP:
         return {"ends": False}
